@@ -152,11 +152,58 @@ const NON_BINDERS: &[(&str, &str)] = &[
   ("inner-function-expr-name", "const s8 = function $() {};\n"),
 ];
 
+/// the global's name in positions that are *not* references (names of parameters of function types and index
+/// signatures, `infer` bindings, export aliases, labels, keys, member and method names): "reports a reference only if …"
+/// — there is no reference here, so no rule of the table may speak
+const NON_REFERENCES: &[(&str, &str)] = &[
+  ("fn-type-param", "type F9 = ($: any) => void;\nexport type { F9 };\n"),
+  ("index-signature-param", "type U9 = { [$: string]: number };\nexport type { U9 };\n"),
+  ("infer-binding", "type I9<X> = X extends (infer $)[] ? $ : never;\nexport type { I9 };\n"),
+  ("export-alias", "const x9 = 1;\nexport { x9 as $ };\n"),
+  ("import-original-name", "import { $ as y9 } from \"m9\";\ny9;\n"),
+  ("label", "$: for (;;) { break $; }\n"),
+  ("property-key", "f9({ $: 1 });\n"),
+  ("member-name", "o9.$;\no9?.$;\n"),
+  ("method-name", "class S9 { $() {} static $ = 1; }\nnew S9();\n"),
+  ("ts-property-signature", "interface P9 { $: number; $2(): void }\nexport type { P9 };\n"),
+  ("enum-member", "enum E9 { $ }\nf9(E9);\n"),
+  ("jsx-attribute-like-string", "f9(\"$\", `$`);\n"),
+  ("method-type-param", "interface M9 { m($: number): void }\nexport type { M9 };\n"),
+  ("constructor-type-param", "type C9 = new ($: number) => object;\nexport type { C9 };\n"),
+];
+
+fn run_c14_nonref(out: &mut Out) {
+  let mut done: BTreeSet<(String, String)> = BTreeSet::new();
+  for (rule, name, _) in REFS {
+    if !done.insert((rule.to_string(), name.to_string())) {
+      continue;
+    }
+    let l = mk_linter(rules_by_codes(&[rule.to_string()]), &Words::default());
+    for (shape, tmpl) in NON_REFERENCES {
+      let src = tmpl.replace('$', name);
+      let meta = json!({"rule": rule, "name": name, "shape": shape, "src": src});
+      match lint(&l, &src, "ts") {
+        Outcome::Ok(d) => {
+          out.eval(&src, true, meta.clone());
+          out.count("non-reference-occurrence");
+          let got: Vec<_> = d.iter().filter(|x| x.code == *rule).map(|x| x.json()).collect();
+          if !got.is_empty() {
+            out.found("C14", &format!("non-reference-reported:{}:{}", rule, shape), &src, json!({"meta": meta, "diagnostics": got}));
+          }
+        }
+        Outcome::Panic(m) => out.found("C01", &format!("panic:{}", rule), &src, json!({"meta": meta, "panic": m})),
+        Outcome::ParseErr(_) => out.count(&format!("parse-error:non-reference:{}", shape)),
+      }
+    }
+  }
+}
+
 fn diags_in(ds: &[D], rule: &str, lo: usize, hi: usize) -> Vec<(usize, usize)> {
   ds.iter().filter(|d| d.code == rule).filter_map(|d| d.start.zip(d.end)).filter(|(s, _)| *s >= lo && *s < hi).map(|(s, e)| (s - lo, e - lo)).collect()
 }
 
 fn run_c14(out: &mut Out, rng: &mut Rng, count: usize) {
+  run_c14_nonref(out);
   let mut linters: BTreeMap<&str, deno_lint::linter::Linter> = BTreeMap::new();
   for case_no in 0..count {
     let (rule, name0, tmpl) = REFS[case_no % REFS.len()];
